@@ -76,6 +76,7 @@ ASSUMPTIONS = [
     "runs are contiguous in the media timebase (no drift at the loop boundary) – the excluded case is ledger entry D13a",
     "SCTE-35: splice_null, time_signal, splice_insert (program or component mode, cancel), avail/segmentation(program)/time descriptors; other structures are ledger entry D13i",
     "out-of-band listing is only defined for count > 0 (an unbounded schedule cannot be listed) – ledger entry D13g",
+    "manifest walks: $Time$ addressing over every media shape; $Number$ addressing only over tracks whose stored durations are all equal (otherwise consecutive numbers repeat/skip stored segments – ledger entry D13m); first decode time 0 (C02 D10-nonzero-first-decode-time)",
     "a segment spans at most 10000 event intervals and (HTTP level) <event>__count <= 10000: larger values are refused with 400 since fix 8c4223f (C16) – ledger entry D13k",
 ]
 
@@ -931,6 +932,13 @@ def _max_id(case) -> int:
 
 def matches_finding(finding, failure):
     w = finding.get("witness", {})
+    fc = failure.get("case") if isinstance(failure.get("case"), dict) else {}
+    if fc.get("kind") == "walk":
+        # manifest walks use drift-free streams; only D13m ($Number$ over unequal durations) can apply
+        if finding["id"].startswith("D13m") and fc.get("addressing") == "number":
+            import c14_e2e
+            return not c14_e2e.regular(fc.get("stream", ""))
+        return False
     if finding["id"].startswith("D13j") and failure.get("channel") in ("emsg", "events_e2e") and \
             "case" in failure and "run" in failure["case"]:
         try:
